@@ -56,6 +56,7 @@ func writeReplay(path, prop string, h harnessInfo, v *Violation, tier string) {
 }
 
 var reTimeNow = regexp.MustCompile(`\btime\.Now\(\)`)
+var reTimeSince = regexp.MustCompile(`\btime\.Since\(`)
 
 // nativeRun runs the harness natively under the replay file; returns combined output.
 func nativeRun(repo, verif string, dirFiles map[string][]string, h harnessInfo, replayPath string) (string, error) {
@@ -99,10 +100,11 @@ func nativeRun(repo, verif string, dirFiles map[string][]string, h harnessInfo, 
 			continue
 		}
 		src, err := os.ReadFile(filepath.Join(repo, h.Dir, n))
-		if err != nil || !reTimeNow.Match(src) {
+		if err != nil || !(reTimeNow.Match(src) || reTimeSince.Match(src)) {
 			continue
 		}
 		out := reTimeNow.ReplaceAll(src, []byte("verifrt.Now()"))
+		out = reTimeSince.ReplaceAll(out, []byte("verifrt.Since("))
 		// add import after the package clause
 		loc := regexp.MustCompile(`(?m)^package \w+.*$`).FindIndex(out)
 		if loc == nil {
